@@ -177,6 +177,8 @@ class Built:
         self.types = {}      # spec id -> python type
         self.ids = {}        # id(python type) -> spec id
         self.spec = {}       # spec id -> type spec
+        self.patterns = {}   # pattern id -> the one Pattern object of this model
+        self.pattern_text = {}
 
 
 def py_type(t, B):
@@ -200,6 +202,12 @@ def py_type(t, B):
         return Union[tuple(py_type(x, B) for x in t[1:])]
     if k == 'lit':
         return Literal[tuple(t[1:])]
+    if k == 'pat':          # Annotated[T, P] with ONE pattern object per pattern id of the model (v1)
+        from typing import Annotated
+        if t[2] not in B.patterns:
+            from dataclass_wizard.v1 import Pattern
+            B.patterns[t[2]] = Pattern(B.pattern_text[t[2]])
+        return Annotated[py_type(t[1], B), B.patterns[t[2]]]
     raise ValueError(t)
 
 
@@ -262,6 +270,7 @@ def build_field(f, engine, B):
 def build(spec):
     from dataclass_wizard import JSONWizard, LoadMeta, DumpMeta
     B = Built()
+    B.pattern_text = dict(spec.get('patterns') or {})
     engine = spec['engine']
     for t in spec['types']:
         kind = t['kind']
@@ -279,6 +288,11 @@ def build(spec):
                     lines.append('    %s: _T%d' % (f['name'], i))
             exec('\n'.join(lines), ns)
             obj = ns[t['name']]
+        elif kind == 'leaf':     # a user subclass of a leaf type
+            import datetime
+            base = {'date': datetime.date, 'time': datetime.time, 'datetime': datetime.datetime,
+                    'Decimal': decimal.Decimal}[t['base']]
+            obj = type(t['name'], (base,), {})
         elif kind == 'typeddict':
             obj = typing.TypedDict(t['name'], {f['name']: py_type(f['type'], B) for f in t['fields']})
         elif kind == 'dataclass':
@@ -337,6 +351,8 @@ def canon(v, B):
     if isinstance(v, bool):
         return {'bool': v}
     tid = B.ids.get(id(type(v)))
+    if tid is not None and B.spec.get(tid, {}).get('kind') == 'leaf':
+        return {'leaf': tid, 'value': v.isoformat() if hasattr(v, 'isoformat') else str(v)}
     if isinstance(v, enum.Enum):
         return {'enum': tid or '?' + type(v).__name__, 'member': v.name}
     if isinstance(v, int):
@@ -357,7 +373,10 @@ def canon(v, B):
     if isinstance(v, dict):
         return {'dict': [[canon(k, B), canon(x, B)] for k, x in v.items()]}
     if isinstance(v, decimal.Decimal):
-        return {'Decimal': str(v)}
+        return {'Decimal': str(v), 'cls': type(v).__name__ if type(v) is not decimal.Decimal else None}
+    import datetime as _dt
+    if isinstance(v, (_dt.date, _dt.time)):
+        return {'datetime': v.isoformat(), 'cls': '?' + type(v).__name__}
     return {'opaque': type(v).__name__}
 
 
